@@ -190,6 +190,18 @@ def install():
                 return SchedLock(_f(*a, **k), f"late_{_n}_{LATE_LOCKS[0]}")
             factory._pv_wrapped = True
             setattr(A, fname, factory)
+    # the evaluator shared by the tasks: one scheduling point before every group it evaluates (threads can be switched
+    # inside Panoptica_Evaluator.evaluate, where no lock is held); not a countable operation for crash enumeration
+    import panoptica.panoptica_evaluator as PE
+
+    orig = PE.Panoptica_Evaluator._evaluate_group
+    if not getattr(orig, "_pv_wrapped", False):
+        def _evaluate_group(self, *a, _orig=orig, **k):
+            if MODE == "schedule":
+                point("evaluate_group", "")
+            return _orig(self, *a, **k)
+        _evaluate_group._pv_wrapped = True
+        PE.Panoptica_Evaluator._evaluate_group = _evaluate_group
     return A
 
 
